@@ -9,6 +9,10 @@ import (
 	"github.com/d5/tengo/v2"
 )
 
+// deepFuncs makes snap render the captured variables of closures too (state keys of the explorer need
+// them; the value comparison with the reference semantics does not).
+type deepFuncs struct{}
+
 func snap(sb *[]byte, o tengo.Object, on map[interface{}]bool, depth int) {
 	w := func(s string) { *sb = append(*sb, s...) }
 	if o == nil {
@@ -58,6 +62,20 @@ func snap(sb *[]byte, o tengo.Object, on map[interface{}]bool, depth int) {
 		snapMap(sb, "immap", x, x.Value, on, depth)
 	case *tengo.CompiledFunction:
 		w("func/compiled")
+		if on[deepFuncs{}] && len(x.Free) > 0 && !on[x] {
+			on[x] = true
+			w("{free:")
+			for _, f := range x.Free {
+				if f == nil || f.Value == nil {
+					w("nil,")
+					continue
+				}
+				snap(sb, *f.Value, on, depth+1)
+				w(",")
+			}
+			w("}")
+			delete(on, x)
+		}
 	case *tengo.BuiltinFunction:
 		w("func/builtin:" + x.Name)
 	case *tengo.UserFunction:
